@@ -30,7 +30,8 @@ def cfgOfArgs (kv : List (String × String)) : Cfg :=
     saveReleasesImmediate := boolOf (arg kv "saveReleasesImmediate"),
     encoding := if arg kv "encoding" == "typeTagged" then .typeTagged else .gobOmitZero }
 
-def ieee : Arith where
+def ieeeWith (expNe0 : Bool) : Arith where
+  expNe0 := expNe0
   fadd t a b :=
     match t with
     | .f64 => (Float.ofBits a.toUInt64 + Float.ofBits b.toUInt64).toBits.toNat
@@ -43,6 +44,8 @@ def ieee : Arith where
     match t with
     | .f64 => Float.ofBits a.toUInt64 == Float.ofBits b.toUInt64
     | .f32 => Float32.ofBits a.toUInt32 == Float32.ofBits b.toUInt32
+
+def ieee : Arith := ieeeWith false
 
 /-! ### parsing -/
 
@@ -254,6 +257,7 @@ inductive Policy where
   deriving DecidableEq
 
 structure DState where
+  ar : Arith := ieee
   cfg : Cfg
   pol : Policy
   pid : String
@@ -273,9 +277,9 @@ def stepReq (d : DState) (f : List String) : DState × String :=
     let now := d.ck.now + opNo
     let ck : Clock := { d.ck with nows := now :: d.ck.nows }
     let verb := f.headD ""
-    let o := Model.step d.cfg ieee now d.s req
+    let o := Model.step d.cfg d.ar now d.s req
     let before := Model.abs d.s
-    let sp := Spec.step ieee now before req
+    let sp := Spec.step d.ar now before req
     let after := Model.abs o.s
     let devAny : Bool := !d.s.dead && (decide (sp.2 ≠ o.r) || decide (sp.1 ≠ after))
     let dev : Bool := devAny && d.pol == .c06
@@ -316,7 +320,7 @@ def stepLine (d : DState) (line : String) : DState × String :=
 
 def run (pid : String) (pol : Policy) (args : List String) : IO UInt32 := do
   let kv := parseArgs args
-  lineLoop stepLine { cfg := cfgOfArgs kv, pol := pol, pid := pid }
+  lineLoop stepLine { cfg := cfgOfArgs kv, pol := pol, pid := pid, ar := ieeeWith (boolOf (arg kv "wireExpNe0")) }
   return 0
 
 end Driver.KV
